@@ -165,11 +165,12 @@ def run(report, tier, seed):
                    (numpy.maximum, "amax"), (numpy.minimum, "amin")):
         for _ in range(reps):
             p = mk((rng.choice([2, 3]), rng.choice([1, 2])))
-            ax = rng.choice([0, 1])
+            ax = rng.choice([0, 1, "default"])
             n_eval += 1
             try:
-                a = uf.reduce(p, axis=ax)
-                b = getattr(numpoly, fn)(p, axis=ax)
+                # the default of a ufunc method is the first axis (not "all axes" as for sum/prod/...)
+                a = uf.reduce(p) if ax == "default" else uf.reduce(p, axis=ax)
+                b = getattr(numpoly, fn)(p, axis=0 if ax == "default" else ax)
                 if not same_result(a, b):
                     viol.append((f"reduce:{fn}", f"numpy.{uf.__name__}.reduce and numpoly.{fn} disagree on {gen.describe(p)} axis={ax}", {"ufunc": uf.__name__}))
             except Exception as exc:  # noqa: BLE001
@@ -180,6 +181,8 @@ def run(report, tier, seed):
         try:
             if not same_result(numpy.add.accumulate(p, axis=0), numpoly.cumsum(p, axis=0)):
                 viol.append(("accumulate:cumsum", "numpy.add.accumulate and numpoly.cumsum disagree", {}))
+            if not same_result(numpy.add.accumulate(p), numpoly.cumsum(p, axis=0)):
+                viol.append(("accumulate:default-axis", f"numpy.add.accumulate(poly) is not the cumulative sum along the first axis on {gen.describe(p)}", {}))
         except Exception as exc:  # noqa: BLE001
             viol.append(("accumulate-raise", f"numpy.add.accumulate(poly) raised {type(exc).__name__}: {exc}", {}))
 
